@@ -1,38 +1,14 @@
-import LymuiVerif.Gen.Types
+import LymuiVerif.Core.StrShims
 /-!
-# Hand-written model of `lymui/src/hex.rs`
+# Hand-written reference model of `lymui/src/hex.rs` (`Gen.HexHand`)
 
-`hex.rs` is iterator/closure/`format!` plumbing over `String`; it is modelled by hand (DESIGN §4)
-and tied to the code by the correspondence check only.  Strings are lists of Unicode scalar
-values; `len()` and `get(a..b)` are byte based, exactly as in Rust.
+Since the translator now generates `Gen.Hex.*` / `Gen.Rgb.try_from_Hex` from MIR, this file is no longer the
+model the checks run; it is the readable reference the C15 theorems were first proved against.
+`Props/C15_bridge.lean` proves that the generated functions agree with it (on success values and on
+success/failure), which transfers every C15 theorem to the generated code.
 -/
-namespace Gen
-
-/-- number of UTF-8 bytes of a scalar value -/
-def utf8Len (c : Nat) : Nat :=
-  if c < 0x80 then 1 else if c < 0x800 then 2 else if c < 0x10000 then 3 else 4
-
-/-- `String::len` -/
-def Str.byteLen : Str → Nat
-  | [] => 0
-  | c :: cs => utf8Len c + Str.byteLen cs
-
-/-- is byte offset `k` a character boundary of `s` (whose first byte is at offset `off`)? -/
-def Str.isBoundary (k : Nat) : Nat → Str → Bool
-  | off, [] => off == k
-  | off, c :: cs => off == k || (off < k && Str.isBoundary k (off + utf8Len c) cs)
-
-/-- the characters whose first byte lies in `[a, b)` -/
-def Str.charsIn (a b : Nat) : Nat → Str → Str
-  | _, [] => []
-  | off, c :: cs =>
-    if a ≤ off ∧ off < b then c :: Str.charsIn a b (off + utf8Len c) cs
-    else Str.charsIn a b (off + utf8Len c) cs
-
-/-- `str::get(a..b)`: `none` when `a > b`, or `a` or `b` is not a character boundary
-(which includes being past the end) -/
-def Str.getRange (s : Str) (a b : Nat) : Option Str :=
-  if a ≤ b ∧ Str.isBoundary a 0 s ∧ Str.isBoundary b 0 s then some (Str.charsIn a b 0 s) else none
+namespace Gen.HexHand
+open Gen
 
 /-- `strip_prefix('#').unwrap_or(&self.0)` -/
 def Hex.strip (s : Str) : Str :=
@@ -94,4 +70,5 @@ def hex2 (v : Nat) : Str := [hexDigitChar (v / 16), hexDigitChar (v % 16)]
 /-- `impl From<Rgb> for Hex` -/
 def Hex.from_Rgb (c : Rgb) : Hex := { _0 := 35 :: (hex2 c.r ++ hex2 c.g ++ hex2 c.b) }
 
-end Gen
+
+end Gen.HexHand
